@@ -14,7 +14,7 @@ PYTHONPATH=$W /venv/bin/python demo.py > /tmp/seed_demo_orig.out 2>&1; D0=$?
 git apply /tmp/seed_patch_$NAME.diff
 echo "tests with change: $T1"
 echo "demo exit: changed=$D1 unchanged=$D0"
-OUT=$(VCOPY=/tmp/vseed /verif/tools_seedcheck.sh $W $PID quick 2>&1 | grep -v "^KNOWN" | tail -4)
+OUT=$(VCOPY=/tmp/vseed /verif/tools_seedcheck.sh $W $PID quick 2>&1 | grep "^VIOLATION\|^C[0-9][0-9] quick:" | tail -4)
 echo "$OUT"
 mkdir -p /verif/seeded/$NAME
 cp /tmp/seed_patch_$NAME.diff /verif/seeded/$NAME/patch.diff
